@@ -458,7 +458,8 @@ void c09_constant(vf::Tape & t, vf::Ctx & ctx)
   // nothing may have moved
   SE2d g = g0;
   const auto res = minimize<diff::Type::Numerical>(f, smooth::wrt(g), make(o, o.max_iter));
-  ctx.require("constant: argument unchanged", g.coeffs() == g0.coeffs());
+  // (not bitwise: a zero step is g * exp(0), and the product re-normalises a stored element that is an ulp off unit norm)
+  ctx.le("constant: argument unchanged (to rounding)", (g.coeffs() - g0.coeffs()).cwiseAbs().maxCoeff(), 8 * std::numeric_limits<double>::epsilon() * std::max(1.0, g0.coeffs().cwiseAbs().maxCoeff()));
   ctx.require("constant: stops after at most one iteration", res.iter <= 1);
 }
 
